@@ -121,6 +121,7 @@ let () =
                  scur = None; sx = Z0; sy = Z0; subuf = [] };
         Array.fill cls 0 maxcl None;
         print_endline "screen ok"
+    | ["stride"; _] -> print_endline "stride ok"    (* rows further apart in memory: not visible at pixel level *)
     | "fb" :: toks ->
         set_fb { fw = z_of_int !sw; fh = z_of_int !sh; rows = chunks !sw (hexlist toks) };
         print_endline "fb ok"
